@@ -12,10 +12,13 @@ import (
 )
 
 func init() {
-	register("C02", "Structural clauses behind incremental minimality, decided for every pair of stats: the equality test that suppresses a change compares every identity field of types.Stat (the field set is taken from go/types, so a new field is an obligation) field-by-field between its two operands and each 'different' outcome forces the result false; with differencing disabled the test is false before any comparison; on the modify arm the change callback is unreachable when the test said same and reachable otherwise, with operands (destination entry, filtered clone of source entry); both walkers build stats with one constructor; content is requested only on the regular, non-link arm. Does not decide histories, inode preservation or the hard-link timing exception.", runC02)
+	register("C02", "Structural clauses behind incremental minimality, decided for every pair of stats: the equality test that suppresses a change compares every identity field of types.Stat (the field set is taken from go/types, so a new field is an obligation) field-by-field between its two operands and each 'different' outcome forces the result false; with differencing disabled the test is false before any comparison; on the modify arm the change callback is unreachable when the test said same and reachable otherwise, with operands (destination entry, filtered clone of source entry); both walkers build stats with one constructor; content is requested only on the regular, non-link arm. Device numbers are decoded from the raw device word bit for bit as on the reference tree (bit-level reading of the decoding helpers). Does not decide histories, inode preservation or the hard-link timing exception.", runC02)
 }
 
 func runC02(c *Ctx) {
+	if c.Unix() {
+		r02_8(c, "R02.8")
+	}
 	r02_1(c, "R02.1")
 	r02_2(c, "R02.2")
 	r02_3(c, "R02.3")
@@ -986,4 +989,83 @@ func r02_5(c *Ctx, rule string) {
 		}
 	}
 	c.R.Floor(rule, "invocations of the data callback", n, 1)
+}
+
+// devNumberBits: the input bit each output bit of fsutil.major / fsutil.minor
+// takes on the reference tree (read off `(device >> 8) & 0xfff` and
+// `(device & 0xff) | ((device >> 12) & 0xfff00)`; agrees with the kernel's
+// encoding of dev_t for the bits it covers).
+var devNumberBits = map[string]map[int]int{
+	"Devmajor": {0: 8, 1: 9, 2: 10, 3: 11, 4: 12, 5: 13, 6: 14, 7: 15, 8: 16, 9: 17, 10: 18, 11: 19},
+	"Devminor": {0: 0, 1: 1, 2: 2, 3: 3, 4: 4, 5: 5, 6: 6, 7: 7, 8: 20, 9: 21, 10: 22, 11: 23, 12: 24, 13: 25, 14: 26, 15: 27, 16: 28, 17: 29, 18: 30, 19: 31},
+}
+
+// R02.8: device numbers are read off the raw device word in full.
+//
+// Devmajor/Devminor are identity fields; both walks compute them with the same
+// helpers, so a helper that drops bits makes two different devices look alike
+// on BOTH sides - the comparison rules cannot see it. The helpers are pure bit
+// manipulation: every result bit the reference takes from an input bit is
+// still taken from that bit (more bits may be decoded, none fewer or other).
+func r02_8(c *Ctx, rule string) {
+	c.R.Rule(rule, "setUnixOpt: Stat.Devmajor / Stat.Devminor are decoded from Rdev by x/sys or by helpers whose result bits come from the same input bits as on the reference tree (bit-level reading of the helper)")
+	su := c.Fn(rule, "fsutil.setUnixOpt")
+	if su == nil {
+		return
+	}
+	for _, field := range []string{"Devmajor", "Devminor"} {
+		ss := fieldStoresIn(su, "types.Stat."+field)
+		con := c.name(su) + "/" + field
+		if len(ss) == 0 {
+			c.R.Fail(rule, con, c.P.Pos(su.Pos()), "setUnixOpt no longer records Stat."+field)
+			continue
+		}
+		for _, st := range ss {
+			var dec *ssa.Call
+			c.DerivesFrom(st.Val, func(v ssa.Value) bool {
+				if call, ok := v.(*ssa.Call); ok && dec == nil && !strings.HasPrefix(c.P.CalleeName(call), "builtin:") {
+					dec = call
+					return true
+				}
+				return false
+			}, 4)
+			if dec == nil {
+				c.R.Undecided(rule, con, c.pos(st), "Stat."+field+" is not the result of a decoding call: shape not interpreted")
+				continue
+			}
+			name := c.P.CalleeName(dec)
+			if name == "golang.org/x/sys/unix.Major" || name == "golang.org/x/sys/unix.Minor" {
+				c.R.OK(rule, con, c.pos(st), "decoded by "+name)
+				continue
+			}
+			callee := eng.EffCallee(dec)
+			bits, ok := eng.BitMap(callee)
+			if !ok {
+				c.R.Undecided(rule, con, c.pos(dec), "the decoding helper "+name+" is not straight-line bit manipulation: not read")
+				continue
+			}
+			bad := ""
+			for o, i := range devNumberBits[field] {
+				if o >= len(bits) || bits[o] != i {
+					got := "nothing"
+					if o < len(bits) {
+						switch {
+						case bits[o] >= 0:
+							got = fmt.Sprintf("input bit %d", bits[o])
+						case bits[o] == eng.BitZero:
+							got = "constant 0"
+						case bits[o] == eng.BitOne:
+							got = "constant 1"
+						default:
+							got = "an expression this reading does not follow"
+						}
+					}
+					if bad == "" || o < 64 {
+						bad = fmt.Sprintf("result bit %d comes from %s, the device word keeps it in bit %d", o, got, i)
+					}
+				}
+			}
+			c.R.Check(bad == "", rule, con, c.pos(dec), "every decoded bit comes from its place in the device word", "Stat."+field+" is decoded differently ("+bad+"): two devices that differ only there get the same identity on both sides and a renumbering is never re-transferred")
+		}
+	}
 }
